@@ -7,11 +7,16 @@ from vlib.gens import *
 GROUP = "panic"
 LEAN_PROPS = "Dashu.Props.C16"
 LEAN_AUDIT = "Dashu.Audit.C16"
+# Tie A, typed translator: the entry guards (prologues) of powf / ln / ln_1p / sqrt / div / ulp, IBig::nth_root / sqrt,
+# in_radix, from_parts regenerated from /repo and proved equal to the hand-mirrored guards of `Model/Panic/Guards.lean`
+USES_GEN = True
+GEN_PROPS = ["Dashu.Props.GenGuards"]
+GEN_AUDIT = ["Dashu.Audit.GenGuards"]
 JOBS = 14
 
-# the supervisor in exec_panic enforces the per-case limit itself (vlib/core's 60 s floor is far too long for a
-# property whose findings are hangs) and caps the worker's address space
-core.ENV.setdefault("VERIF_PANIC_CASE_MS", "4000")
+# the supervisor in exec_panic decides `hang` on the worker's CPU time (not wall time: a loaded machine must not turn a
+# slow case into a hang) and caps the worker's address space; limits per tier are set in pre_build()
+core.ENV.setdefault("VERIF_PANIC_CPU_MS", "20000")
 core.ENV.setdefault("VERIF_PANIC_MEM_MB", "4096")
 
 REFINED = ["entry guards mirrored from the code and proved equivalent to the documentation: UBig::sub, div/rem/div_rem/"
@@ -27,13 +32,23 @@ REFINED = ["entry guards mirrored from the code and proved equivalent to the doc
            "allocation requests of ones / set_bit / << (64-bit words): the request exceeds the result by <= 2 words, so "
            "Buffer::allocate/reallocate's MAX_CAPACITY test fires iff the documentation says AllocTooMuch, outside a band of two "
            "word counts (band counterexample proved)",
+           "round 3: the 58 operations for which the documentation names no panic (parsers, formatting, shifts right, bit "
+           "inspectors, conversions, comparisons, rational arithmetic without division): `documented = none` for all arguments; "
+           "f.info, Reduced ops in one ring (inv at its specification), from_chunks(chunk_bits = 0), IBig <<; from_parts partial",
+           "round 3 loops (fuel models, termination under the condition the code establishes): exp Maclaurin loop (|r| <= 1/2), "
+           "iacoth series (n >= 2), integer log estimate-fixing loops (base >= 2), UBig::remove first stage (<= bit_len steps), "
+           "binary-exponentiation bit loop of pow/powi",
            "RBig::farey_neighbors loop (fuel model): terminates within `limit` iterations; needs exactly `limit` for x = 1/(limit+1)",
            "float ln series loop (fuel model over Rat): terminates for 0 <= z <= 1/3 (x > 0 after scaling, the only input that "
            "reaches it since the ln guard); as-is counterexample for the pre-fix code: never terminates for z >= 2 (x < 0)",
            "float parser marker search: byte offsets returned for ASCII markers are UTF-8 boundaries"]
-FRONTIER = ["every operation NOT in the refined list is decided by the correspondence only: the documentation (Spec/Panics.lean) "
-            "against the real call, on the domain edges listed in RULE",
-            "termination of everything except the two modelled loops is observed (per-case wall limit), not proved",
+FRONTIER = ["guards not mirrored (all are recorded findings or size estimates): UBig/IBig/RBig::pow result-size reservations, "
+            "from_chunks sizing, RBig::to_float(0) (bare assert), the overflow test of exp beyond |x| = 2^61 (transcendental "
+            "threshold), Reduced::inv (taken at its specification; refined in C13)",
+            "that the BODIES behind the guards never panic / always terminate is proved only for the modelled loops (farey, ln, exp, "
+            "iacoth, ilog fixing, remove stage 1, pow bit loop); Newton root iteration and the gcd loops have fuel-bound theorems in "
+            "C12's model, not repeated here; everything else (multiplication, division, parsing, formatting kernels) is observed by "
+            "the correspondence (per-case wall limit, termination stream with sizes up to 2*10^6 bits / 20000 digits), not proved",
             "float operands with |exponent| > 2^61 (all ops except shl/shr/mul/sqr/cubic/powi of +-B^k), result sizes between "
             "2^30 and 2^38 bits: the transcription returns `unspecified`, not exercised",
             "operator impls of UBig/IBig in all primitive/reference forms: covered by group `forms` (C15), not repeated here",
@@ -54,7 +69,7 @@ RULE = ("One case = one public API call at a domain edge; both sides print only 
         "distinct (op,args) lines.")
 EXPLANATION = ("The model of this property is the documentation: Spec/Panics.lean transcribes the rustdoc `# Panics` sections, the "
                "trait/type level docs and the central panic helpers into a decidable `verdict : Op -> Args -> returns | panics k | "
-               "unspecified` (146 operations). Proved: every kind it returns is a documented one; for 80 operations the entry guards "
+               "unspecified` (146 operations). Proved: every kind it returns is a documented one; for all 146 operations but 4 (pow x3, to_float) the entry guards / absence of guards "
                "mirrored from the code fail with kind k iff the documentation names k; the Farey walk terminates within `limit` steps and "
                "needs `limit` steps on 1/(limit+1) (the linear-time finding, made precise); ln/ln_1p now guard their domain (proved "
                "equivalent to the documentation) so the series loop is entered only where it provably terminates; for the pre-fix "
@@ -62,11 +77,11 @@ EXPLANATION = ("The model of this property is the documentation: Spec/Panics.lea
                "call (debug build; thorough: also release) under a watchdog with an address-space cap against the transcription.")
 ASSUMPTIONS = ["Spec/Panics.lean is a faithful transcription of the rustdoc (it is the thing to review)",
                "the harness address-space cap (4 GiB) turns allocation failure into the documented `out of memory` panic",
-               "per-case wall limit 4 s distinguishes termination from non-termination for the generated sizes"]
+               "per-case CPU-time limit (20 s quick, 120 s thorough; 6x for the termination stream) distinguishes termination from non-termination for the generated sizes"]
 LEVEL_TEXT = ("PARTIAL. Lean 4 theorems: the transcription of the documentation is total and only names documented kinds; the entry "
-              "guards of 80 operations (mirrored from the code) are equivalent to it; two loops whose termination is the "
+              "guards of 142 of the 146 operations (mirrored from the code) are equivalent to it; two loops whose termination is the "
               "question are modelled with fuel and their (non-)termination is proved. The rest of the public API (146 ops in total) is "
-              "decided by correspondence only: each call runs in a supervised worker (panic capture, 4 s wall limit, address-space cap) in "
+              "decided by correspondence only: each call runs in a supervised worker (panic capture, CPU-time limit, address-space cap) in "
               "the debug build and, in the thorough tier, the release build, and its outcome class is compared with the transcription.")
 LEVEL_NOTE = ("Trusted: Lean kernel; axioms propext/Classical.choice/Quot.sound; the transcription of the rustdoc; the harness, its "
               "watchdog and classify_panic table. Operator impls of integers in every primitive form are covered by group `forms` "
@@ -78,7 +93,7 @@ THEOREMS = ["Dashu.Props.C16." + t for t in (
     "ibig_sqrt_guard ubig_ilog_guard ibig_ilog_guard in_radix_guard const_divisor_new_guard rbig_from_parts_guard "
     "rbig_limit_guard fbig_add_sub_guard fbig_div_guard fbig_sqrt_guard fbig_ulp_guard ubig_is_multiple_of_const_guard "
     "ibig_is_multiple_of_const_guard fbig_split_at_point_guard fbig_euclid_guard fbig_powf_guard fbig_ln_guard "
-    "fbig_ln_1p_guard fbig_finite_only_guard fbig_mul_guard_partial fbig_mul_guard_counterexample fbig_sqr_guard_partial fbig_cubic_guard_partial fbig_rem_guard fbig_inv_guard fbig_exp_guard_partial fbig_powi_guard_partial fbig_shl_guard_partial fbig_shr_guard_partial fbig_shl_guard_counterexample fbig_to_binary_guard fbig_to_decimal_guard_partial fbig_to_decimal_guard_counterexample fbig_from_repr_guard rbig_from_parts_signed_guard rbig_inv_guard rbig_div_family_guard rbig_div_int_guard const_divisor_from_word_guard const_divisor_from_dword_guard const_divisor_use_guard reduced_different_rings_guard to_chunks_guard ubig_in_radix_guard ones_alloc_guard set_bit_alloc_guard shl_alloc_guard_partial shl_alloc_band_counterexample farey_terminates "
+    "fbig_ln_1p_guard fbig_finite_only_guard fbig_mul_guard_partial fbig_mul_guard_counterexample fbig_sqr_guard_partial fbig_cubic_guard_partial fbig_rem_guard fbig_inv_guard fbig_exp_guard_partial fbig_powi_guard_partial fbig_shl_guard_partial fbig_shr_guard_partial fbig_shl_guard_counterexample fbig_to_binary_guard fbig_to_decimal_guard_partial fbig_to_decimal_guard_counterexample fbig_from_repr_guard rbig_from_parts_signed_guard rbig_inv_guard rbig_div_family_guard rbig_div_int_guard const_divisor_from_word_guard const_divisor_from_dword_guard const_divisor_use_guard reduced_different_rings_guard to_chunks_guard ubig_in_radix_guard ones_alloc_guard set_bit_alloc_guard shl_alloc_guard_partial shl_alloc_band_counterexample parse_radix_never_panics parse_never_panics unary_int_never_panics int_index_never_panics remove_never_panics from_ieee_never_panics float_cmp_never_panics float_conv_never_panics with_precision_never_panics float_ctor_never_panics ratio_parse_never_panics ratio_unary_never_panics ratio_binary_never_panics fbig_info_guard reduced_same_ring_guard from_chunks_zero_guard ishl_alloc_guard_partial fbig_from_parts_guard_partial fbig_from_parts_guard_counterexample exp_series_terminates iacoth_series_terminates ilog_fix_returns remove_returns pow_bit_loop_terminates farey_terminates "
     "farey_needs_limit_steps ln_positive_terminates ln_negative_never_terminates ascii_cuts_safe "
     "float_parser_cuts_safe").split()]
 
@@ -207,6 +222,10 @@ def int_cases(rng, tier):
         L = x.bit_length()
         for e in (0, 1, 2, 3, 5, 64, 1000, 2 ** 20, 2 ** 38, 2 ** 40, 2 ** 57, 2 ** 58, 2 ** 62, 2 ** 63, M - 1, M):
             if not pow_ok_to_generate(x, e):
+                continue
+            # a >= 3-word base with an impossible exponent runs until memory is exhausted (finding
+            # pow_large_base_no_precheck, CPU-limit `hang`): one such case per tier besides the corpus witness
+            if x == (1 << 200) + 1 and e >= 2 ** 38 and not (e == 2 ** 57 if tier == "quick" else e in (2 ** 40, 2 ** 57, M)):
                 continue
             yield Case("u.pow", [hx(x), D(e)]); yield Case("i.pow", [hx(-x), D(e)])
     for x in (0, 1, 4, 8, 27, (1 << 200) + 5, -1, -4, -8, -27, -((1 << 200) + 5)):
@@ -417,15 +436,146 @@ def ratio_cases(rng, tier):
         for (n2, d2) in vals[:8]:
             yield Case("q.simplest_in", [hx(n), hx(d), "k:R", hx(n2), hx(d2)])
     # the Farey walk is linear in `limit` (theorem farey_needs_limit_steps): large limits are the finding
-    for (n, d) in ((1, 1 << 200), (1, 3), (-1, 10 ** 8 + 1)):
-        for lim in (10 ** 8, M, 10 ** 20):
-            yield Case("q.next_up", [hx(n), hx(d), "k:R", hx(lim)])
-    yield Case("q.nearest", [hx(1), hx(1 << 200), "k:R", hx(M)]); yield Case("q.next_down", [hx(1), hx(3), "k:R", hx(10 ** 20)])
+    # measured: 1.6 s CPU at limit 10^8, 3.1 s at 2*10^8 (x = 1/3): limits of 2^64 and beyond never return
+    yield Case("q.next_up", [hx(1), hx(3), "k:R", hx(10 ** 7)]); yield Case("q.nearest", [hx(1), hx(1 << 200), "k:R", hx(10 ** 6)])
+    yield Case("q.next_up", [hx(1), hx(1 << 200), "k:R", hx(M)])
+    if th:
+        yield Case("q.nearest", [hx(1), hx(1 << 200), "k:R", hx(M)]); yield Case("q.next_down", [hx(1), hx(3), "k:R", hx(10 ** 20)])
+        yield Case("q.next_up", [hx(-1), hx(10 ** 8 + 1), "k:R", hx(10 ** 20)])
     for v in (0.0, -0.0, 1.5, float("inf"), float("-inf"), float("nan"), 1e300, 5e-324, -2.5e-310, 0.1):
         yield Case("q.from_f64", [D(ieee64(v))])
 
 
+def termination_cases(rng, tier):
+    """termination stream: powf / ln / exp / sqrt / roots / logs with huge precisions and exponents.  Quick: sizes that
+    answer within the normal per-case limit; thorough: `L/` cases (long limit; answers over 10 s carry `#slow=`)"""
+    big = tier == "thorough"
+    pre = "L/" if big else ""
+    P10 = [300] + ([2000, 4000] if big else [])
+    P2 = [1000] + ([20000] if big else [])
+    for p in P10:
+        yield Case(pre + "f.ln", [F(10, 3, 0, p)]); yield Case(pre + "f.ln_1p", [F(10, 7, -1, p)])
+        yield Case(pre + "f.exp", [F(10, 1, 0, p)]); yield Case(pre + "f.exp_m1", [F(10, -3, -1, p)])
+        yield Case(pre + "f.powf", [F(10, 3, 0, p), F(10, 7, -1, p)])
+        yield Case(pre + "f.powi", [F(10, 3, 0, p), hx(1000)]); yield Case(pre + "f.powi", [F(10, 3, 0, p), hx(-999)])
+        yield Case(pre + "f.sqrt", [F(10, 2, 0, 50 * p)]); yield Case(pre + "f.inv", [F(10, 7, 0, 50 * p)])
+    for p in P2:
+        yield Case(pre + "f.ln", [F(2, 3, 0, p)]); yield Case(pre + "f.exp", [F(2, 5, -2, p)])
+        yield Case(pre + "f.sqrt", [F(2, 3, 1, 64 * p)]); yield Case(pre + "f.powf", [F(2, 3, 0, p), F(2, 5, -1, p)])
+    # ln of huge exponents: recorded finding ln_huge_exponent (witnesses in the corpus); quick keeps to the sizes that answer
+    for e in ((2 ** 20, -2 ** 20, 2 ** 30) if big else (2 ** 10, -2 ** 10, 2 ** 12)):
+        if not (big and e == 2 ** 30):
+            yield Case(pre + "f.ln", [F(10, 7, e, 20)])      # 10^(2^20) is already beyond the limit (finding)
+        if not (big and e == 2 ** 20):
+            yield Case(pre + "f.ln", [F(2, 3, e, 64)])
+        yield Case(pre + "f.sqrt", [F(2, 3, e + 1, 64)]); yield Case(pre + "f.sqrt", [F(10, 7, e, 20)])
+        if abs(e) <= 2 ** 12:
+            yield Case(pre + "f.powf", [F(2, 3, e, 64), F(2, 3, -4, 64)])
+    bits = 250000 if big else 20000       # measured: nth_root with n = bits/20 costs 10 s CPU at 250k bits, 57 s at 500k
+    x = (1 << bits) + 12345
+    for n in (2, 3, 7, 64, 1001, bits // 20, bits // 2, bits, bits + 5):
+        yield Case(pre + "u.nth_root", [hx(x), D(n)]); yield Case(pre + "i.nth_root", [hx(-x), D(n | 1)])
+    yield Case(pre + "u.sqrt", [hx(x)]); yield Case(pre + "u.cbrt", [hx(x)]); yield Case(pre + "i.cbrt", [hx(-x)])
+    lb = bits // 2
+    y = (1 << lb) + 777
+    for b in (2, 3, 10, 16, (1 << 64) - 59, (1 << 64) + 13, (1 << 200) + 1, y - 1, y, y + 1):
+        yield Case(pre + "u.ilog", [hx(y), hx(b)]); yield Case(pre + "i.ilog", [hx(-y), hx(b)])
+    yield Case(pre + "u.pow", [hx(3), D(2 ** 21 if big else 2 ** 13)]); yield Case(pre + "u.pow", [hx((1 << 64) + 1), D(2 ** 14 if big else 2 ** 8)])
+    yield Case(pre + "u.pow", [hx((1 << 200) + 1), D(2 ** 12 if big else 2 ** 6)])
+    k = 20000 if big else 500
+    yield Case(pre + "u.remove", [hx(3 ** k * 7), hx(3)]); yield Case(pre + "u.remove", [hx(((1 << 70) + 1) ** (k // 10) * 5), hx((1 << 70) + 1)])
+    for lim in ((10 ** 5, 10 ** 6) if big else (10 ** 4,)):
+        yield Case(pre + "q.next_up", [hx(1), hx(3), "k:R", hx(lim)]); yield Case(pre + "q.nearest", [hx(1), hx(1 << 200), "k:R", hx(lim)])
+
+
+def size_class_values():
+    """one value per size class and per boundary between classes: inline 1 word, inline 2 words, heap 3/4/5 words"""
+    B = 1 << 64
+    vs = [0, 1, 2, B - 1, B, B + 1, B * B - 1, B * B, B * B + 1, B ** 3 - 1, B ** 3, B ** 3 + 5, (B ** 3) * 7 + 3, B ** 4 - 1, B ** 4,
+          B ** 4 + B, B ** 5 + 1]
+    return vs
+
+
+def panic_condition_cases(rng, tier):
+    """every documented integer panic condition, reached through every call form (the harness ops run all ownership /
+    assign forms) and every PAIR of size classes (inline/inline, inline/heap, heap/heap of equal and of different
+    length), on BOTH sides of the condition (equal, one below, one above, low words only, high words only)"""
+    B = 1 << 64
+    V = size_class_values()
+    # UBig - UBig: NegativeUBig iff a < b
+    pairs = set()
+    for a in V:
+        for b in V:
+            pairs.add((a, b))
+        for d in (1, B, B * B, B ** 3):
+            for (x, y) in ((a, a + d), (a + d, a), (a, a + 1), (a + 1, a), (a, a)):
+                pairs.add((x, y))
+    # same word length, differing only in the top / middle / low word (borrow chains through equal words)
+    for n in (3, 4, 6):
+        top = B ** (n - 1)
+        for (x, y) in ((top + 5, top + 6), (top + 6, top + 5), (2 * top, 2 * top + 1), (top * 3, top * 3 - 1 + B), (top + B, top + B + 1),
+                       (top * 2 - 1, top * 2), (top * 2, top * 2 - 1), (top + (B - 1), top + B), (B ** n - 1, B ** n - 1), (B ** n - 2, B ** n - 1)):
+            pairs.add((x, y))
+    if tier == "thorough":
+        for _ in range(3000):
+            na = rng.choice([1, 2, 3, 3, 4, 5, 8]); nb = na if rng.random() < 0.6 else rng.choice([1, 2, 3, 4, 5, 8])
+            a = nat_pattern(rng, na, rng.choice(PATTERNS)); b = nat_pattern(rng, nb, rng.choice(PATTERNS))
+            r = rng.random()
+            if r < 0.3:
+                b = a + rng.choice([0, 1, B, B * B])
+            elif r < 0.5 and a > 0:
+                b = a - 1
+            pairs.add((a, b))
+    for (a, b) in sorted(pairs):
+        yield Case("u.sub", [hx(a), hx(b)])
+    # division family by zero / non-zero, dividend in every size class; divisor classes around zero
+    for op in ("div", "rem", "div_rem", "div_euclid", "rem_euclid", "div_rem_euclid", "is_multiple_of"):
+        for x in V:
+            for y in (0, 1, B - 1, B, B * B - 1, B * B, B ** 3 + 5):
+                yield Case("u." + op, [hx(x), hx(y)])
+                yield Case("i." + op, [hx(-x), hx(y)]); yield Case("i." + op, [hx(x), hx(-y)])
+    for x in V:
+        for d in (0, 1, B - 1, B, B * B - 1):
+            yield Case("u.is_multiple_of_const", [hx(x), hx(d)]); yield Case("i.is_multiple_of_const", [hx(-x), hx(d)])
+    # gcd(0, 0) against every class
+    for x in V:
+        for y in (0, 1, B, B * B, B ** 3 + 5):
+            for op in ("gcd", "gcd_ext"):
+                yield Case("u." + op, [hx(x), hx(y)]); yield Case("u." + op, [hx(y), hx(x)])
+                yield Case("i." + op, [hx(-x), hx(y)]); yield Case("i." + op, [hx(y), hx(-x)])
+    # conversions at exactly the limits of every primitive type, and UBig from a negative IBig in every size class
+    lims = set()
+    for bts in (7, 8, 15, 16, 31, 32, 63, 64, 127, 128):
+        for d in (-1, 0, 1):
+            lims.add((1 << bts) + d); lims.add(-(1 << bts) + d)
+    for v in V:
+        lims.add(v); lims.add(-v)
+    for x in sorted(lims):
+        if x >= 0:
+            yield Case("u.try_prims", [hx(x)])
+        yield Case("i.try_prims", [hx(x)]); yield Case("u.try_from_i", [hx(x)])
+    # roots / logs: the condition against every size class
+    for x in V:
+        for n in (0, 1, 2, 3):
+            yield Case("u.nth_root", [hx(x), D(n)]); yield Case("i.nth_root", [hx(-x), D(n)]); yield Case("i.nth_root", [hx(x), D(n)])
+        yield Case("i.sqrt", [hx(-x)]); yield Case("i.sqrt", [hx(x)])
+        for b in (0, 1, 2, 3, B, B * B + 1, B ** 3 + 5):
+            yield Case("u.ilog", [hx(x), hx(b)]); yield Case("i.ilog", [hx(-x), hx(b)])
+    # shifts / set_bit / ones at exactly the MAX_CAPACITY limit (exact requests only: x = 1, inline set_bit, ones)
+    MC = (2 ** 64 - 1) // 64
+    for words in (MC - 1, MC, MC + 1):
+        n = 64 * (words - 1)          # 1 << n has exactly `words` words
+        for nn in (n, n + 63):
+            yield Case("u.shl", [hx(1), D(nn)]); yield Case("i.shl", [hx(-1), D(nn)]); yield Case("u.set_bit", [hx(0), D(nn)])
+        yield Case("u.ones", [D(64 * words - 1)]); yield Case("u.ones", [D(64 * (words - 1) + 1)])
+    for x in V[1:]:
+        for n in (0, 1, 63, 64, 65, 2 ** 40, 2 ** 63):
+            yield Case("u.shl", [hx(x), D(n)]); yield Case("i.shl", [hx(-x), D(n)]); yield Case("u.shr", [hx(x), D(n)]); yield Case("i.shr", [hx(-x), D(n)])
+
+
 def base_cases(rng, tier):
+    yield from termination_cases(rng, tier)
+    yield from panic_condition_cases(rng, tier)
     yield from int_cases(rng, tier)
     yield from float_cases(rng, tier)
     yield from ratio_cases(rng, tier)
@@ -471,6 +621,9 @@ def release_exe_available():
 
 def pre_build():
     """thorough tier: also build the harness in the release profile (no debug assertions, wrapping arithmetic)"""
+    if "VERIF_PANIC_CPU_MS_SET" not in core.ENV:
+        core.ENV["VERIF_PANIC_CPU_MS"] = "120000" if _tier_from_argv() == "thorough" else "20000"
+        core.ENV.setdefault("VERIF_PANIC_LONG_MS", "360000")
     if _tier_from_argv() != "thorough":
         return {"release_build": "not built (quick tier runs the debug profile only)"}
     rc, out, bindir, t = core.cargo_build(profile="release", bins=["exec_panic"])
@@ -577,7 +730,9 @@ def to_decimal_small_precision(args, impl, model):
 @_kf
 def with_precision_infinite_shrink(args, impl, model):
     a = _F(args[0]); p = _I(args[1])
-    return model == "ok" and impl == "panic Infinite" and a["signif"] == 0 and a["exp"] != 0 and a["prec"] > p
+    # the value is re-rounded when the precision shrinks; 0 = unlimited is larger than any other (fix ee15d7b)
+    shrinks = (a["prec"] > p) or (a["prec"] == 0 and p > 0)
+    return model == "ok" and impl == "panic Infinite" and a["signif"] == 0 and a["exp"] != 0 and shrinks
 
 
 def _maxcap_words(bits):
@@ -614,7 +769,7 @@ def relaxed_parse_zero_denominator(args, impl, model):
 
 @_kf
 def farey_linear(args, impl, model):
-    return impl == "hang" and model == "ok" and _I(args[3]) >= 10 ** 7
+    return impl == "hang" and model == "ok" and _I(args[3]) >= 2 ** 60
 
 
 @_kf
@@ -625,6 +780,15 @@ def farey_integer_limit_one(args, impl, model):
 @_kf
 def to_float_zero_precision(args, impl, model):
     return _I(args[3]) == 0 and model == "panic UnlimitedPrecision" and "precision_>_0" in impl
+
+
+@_kf
+def ln_huge_exponent(args, impl, model):
+    # the thresholds are where the
+    # measured CPU time has left every limit used here (see the entry): below them the cases answer
+    a = _F(args[0])
+    big = (a["exp"] >= 2 ** 15 or a["exp"] <= -2 ** 26) if a["base"] == 10 else (a["exp"] >= 2 ** 29 or a["exp"] <= -2 ** 28)
+    return impl == "hang" and model == "ok" and a["signif"] > 0 and big
 
 
 @_kf
